@@ -251,6 +251,8 @@ def copy_block(block=None, update_working_block=True):
     block_out.mem_map = mems
     block_out.io_map = {io: w for io, w in temp_wv_map.items() if isinstance(io, (Input, Output))}
     block_out.reg_map = {r: w for r, w, in temp_wv_map.items() if isinstance(r, Register)}
+    # the copy asserts what the original asserts (rtl_assert)
+    block_out.rtl_assert_dict = {temp_wv_map[w]: exp for w, exp in block_in.rtl_assert_dict.items()}
 
     if update_working_block:
         set_working_block(block_out)
